@@ -130,6 +130,7 @@ class Filters:
                 "type_name": self.type_name,
                 "text_wrap": self.text_wrap,
                 "clean_docstring": self.clean_docstring,
+                "escape_string": text.escape_string,
                 "import_module": self.import_module,
                 "import_class": self.import_class,
                 "post_meta_hook": self.post_meta_hook,
